@@ -4,6 +4,7 @@ import (
 	"errors"
 	"sync"
 	"sync/atomic"
+	"time"
 
 	"go.dedis.ch/kyber/v3"
 	"go.dedis.ch/onet/v3"
@@ -23,6 +24,14 @@ type C14Echo struct {
 	B []byte
 }
 type C14Swap struct {
+	A int64
+	S string
+	B []byte
+}
+
+// C14Keep is handled by a handler that retains B (a handler may keep what it
+// was given) and answers with the B it retained from the previous request.
+type C14Keep struct {
 	A int64
 	S string
 	B []byte
@@ -83,14 +92,37 @@ func c14Transform(tag string, a int64, s string, b []byte) (*C14Reply, error) {
 
 type c14Service struct {
 	*onet.ServiceProcessor
+	keptMu sync.Mutex
+	kept   []byte
 }
 
+// c14SlowSleep is how long a request with S == "slow" keeps its websocket
+// handler busy; clients named q... stop waiting for the reply before that.
+const c14SlowSleep = 2 * time.Second
+const c14QuickTimeout = 1 * time.Second
+
+func c14maybeSlow(s string) {
+	if s == "slow" {
+		time.Sleep(c14SlowSleep)
+	}
+}
+
+func (s *c14Service) keep(m *C14Keep) (*C14Reply, error) {
+	atomic.AddInt64(&c14Calls, 1)
+	s.keptMu.Lock()
+	prev := s.kept
+	s.kept = m.B // retained, not copied
+	s.keptMu.Unlock()
+	return c14Transform("Keep", m.A, m.S, prev)
+}
 func (s *c14Service) echo(m *C14Echo) (*C14Reply, error) {
 	atomic.AddInt64(&c14Calls, 1)
+	c14maybeSlow(m.S)
 	return c14Transform("Echo", m.A, m.S, m.B)
 }
 func (s *c14Service) swap(m *C14Swap) (*C14Reply, error) {
 	atomic.AddInt64(&c14Calls, 1)
+	c14maybeSlow(m.S)
 	return c14Transform("Swap", m.A, m.S, m.B)
 }
 func (s *c14Service) key(m *C14Key) (*C14Reply, error) {
@@ -128,7 +160,7 @@ func (s *c14Service) getEmpty(m *C14Empty) (*C14Reply, error) {
 
 func newC14Service(c *onet.Context) (onet.Service, error) {
 	s := &c14Service{ServiceProcessor: onet.NewServiceProcessor(c)}
-	if err := s.RegisterHandlers(s.echo, s.swap, s.key); err != nil {
+	if err := s.RegisterHandlers(s.echo, s.swap, s.key, s.keep); err != nil {
 		return nil, err
 	}
 	for _, r := range []struct {
